@@ -26,6 +26,7 @@ import (
 	"go.opentelemetry.io/collector/pdata/ptrace"
 	"go.opentelemetry.io/collector/processor"
 	"go.opentelemetry.io/collector/processor/processortest"
+	"go.opentelemetry.io/otel/trace"
 )
 
 type sysCfg struct {
@@ -158,10 +159,21 @@ type runPlan struct {
 	Fail  []bool     `json:"export_failures"`
 	LatUs []int      `json:"export_latency_us"`
 	Seed  uint64     `json:"gen_seed"`
+	// SharedSpan: every caller context derives from one traced parent (same span, distinct contexts)
+	SharedSpan bool `json:"shared_span"`
+	// Trickle: one caller sends small requests spaced below the timeout for many timeouts
+	Trickle bool `json:"trickle"`
 }
+
+var sharedSpanCtx = trace.ContextWithSpanContext(context.Background(), trace.NewSpanContext(trace.SpanContextConfig{
+	TraceID: trace.TraceID{9, 9, 9, 9, 9, 9, 9, 9, 9, 9, 9, 9, 9, 9, 9, 9}, SpanID: trace.SpanID{7, 7, 7, 7, 7, 7, 7, 7}, TraceFlags: trace.FlagsSampled,
+}))
+
+var forceTrickle bool
 
 func genPlan(r *Rng, focus string) *runPlan {
 	p := &runPlan{Seed: r.U64()}
+	p.SharedSpan = r.Chance(35)
 	c := &p.Cfg
 	c.Signal = r.Intn(3)
 	sizes := []uint32{0, 1, 2, 3, 5, 8}
@@ -236,6 +248,19 @@ func genPlan(r *Rng, focus string) *runPlan {
 	if focus != "C10" && r.Chance(15) {
 		c.MetaKeys = []string{"tenant"}
 		c.MetaLimit = uint32(r.Intn(3))
+	}
+	if focus == "C09" && (forceTrickle || r.Chance(3)) {
+		// steady trickle: requests keep arriving less than `timeout` apart while the buffer stays below send_batch_size
+		p.Trickle = true
+		*c = sysCfg{Signal: r.Intn(3), SendSize: 100000, MaxSize: 0, TimeoutMs: 20, MaxConc: 0, Early: true, Shutdown: "after"}
+		for q := 0; q < 100; q++ {
+			p.Reqs = append(p.Reqs, &reqPlan{ID: q, Caller: 0, DelayUs: 7000, CtxLabel: q + 1, CancelUs: -1})
+		}
+		for i := 0; i < 400; i++ {
+			p.Fail = append(p.Fail, false)
+			p.LatUs = append(p.LatUs, 0)
+		}
+		return p
 	}
 	id := 0
 	for cl := 0; cl < nCallers; cl++ {
@@ -425,6 +450,9 @@ func execPlan(p *runPlan) *runResult {
 			return l
 		}
 		base := context.Background()
+		if p.SharedSpan {
+			base = sharedSpanCtx
+		}
 		if rp.Meta != nil {
 			base = client.NewContext(base, client.Info{Metadata: client.NewMetadata(rp.Meta)})
 			rp.CtxLabel = rp.ID + 1 // a metadata-carrying context is never shared
@@ -852,6 +880,9 @@ func validate(res *runResult, out *Output, run int, stats map[string]int) {
 			}
 		}
 		limit := time.Duration(p.Cfg.TimeoutMs)*time.Millisecond*5 + 2*time.Second
+		if p.Trickle {
+			limit = time.Duration(p.Cfg.TimeoutMs)*time.Millisecond*5 + 200*time.Millisecond
+		}
 		for id, ks := range exportsOf {
 			for k := range ks {
 				if st, ok := sendT[k]; ok {
@@ -1200,6 +1231,7 @@ Definition sys_cases : list case_t := [
 	nlts := 0
 	stats := map[string]int{}
 	for i := 0; i < n; i++ {
+		forceTrickle = focus == "C09" && i%20 == 7
 		p := genPlan(r.Fork(), focus)
 		res := execPlan(p)
 		before := len(out.Violations)
@@ -1211,7 +1243,7 @@ Definition sys_cases : list case_t := [
 			tenantCases(res, &kb, &ab, &nkey, &nadm)
 			ltsCases(res, &lb, &nlts)
 		}
-		kind := fmt.Sprintf("signal=%d early=%v meta=%v shutdown=%s", p.Cfg.Signal, p.Cfg.Early, len(p.Cfg.MetaKeys) > 0, p.Cfg.Shutdown)
+		kind := fmt.Sprintf("signal=%d early=%v meta=%v shutdown=%s trickle=%v", p.Cfg.Signal, p.Cfg.Early, len(p.Cfg.MetaKeys) > 0, p.Cfg.Shutdown, p.Trickle)
 		obs := map[string]any{"run": i, "cfg": p.Cfg, "requests": len(p.Reqs), "exports": len(res.sink.exports), "shards": shards,
 			"violations": len(out.Violations) - before}
 		for s := 0; s < shards || s == 0; s++ {
